@@ -552,6 +552,50 @@ Definition wf_hs (h : hshake) : bool :=
 Definition wf_event (e : event) : bool :=
   match e with EvHs _ h => wf_hs h | _ => true end.
 
+(* ------------------------------------------------------------------ scheduler glue around an incoming handshake
+   scheduler.go:318 listenLoop, :385 establishIncomingHandshake, events.go:145 incomingHandshakeEvent, :186
+   incomingConnEvent, :128 connClosedEvent, connstate pending / active entries (the bookkeeping itself is C16's model).
+   One attempt = one incoming connection from its handshake to its end (the remote peer hangs up after being
+   served).  The peer registers the pending connection under the info hash OF THE HANDSHAKE, looks the torrent up by
+   the DIGEST and creates the connection for that torrent's info hash. *)
+Record sattempt := mksa {
+  sa_peer : Z;      (* peer id *)
+  sa_hash : Z;      (* info hash of the handshake: 0 = the hash of the torrent the digest names, else a foreign one *)
+  sa_known : bool;  (* the digest names a torrent *)
+  sa_bfok : bool    (* the bitfield fits the torrent (addPeer accepts) *)
+}.
+Record sst := mkss { ss_pending : list (Z * Z); ss_active : list (Z * Z) }.
+Definition sinit : sst := mkss [] [].
+Definition pair_mem (k : Z * Z) (l : list (Z * Z)) : bool := existsb (fun y => (fst k =? fst y) && (snd k =? snd y)) l.
+
+(* result: 0 = closed without an answer, 1 = handshake answered, then closed by the local peer, 2 = accepted and served.
+   [guard] = fixes/C14_infohash_mismatch.patch *)
+Definition sched_attempt (guard : bool) (s : sst) (a : sattempt) : sst * Z :=
+  let k := (sa_peer a, sa_hash a) in
+  if pair_mem k (ss_pending s) || pair_mem k (ss_active s) then (s, 0)   (* events.go:151 AddPending refuses *)
+  else if negb (sa_known a) then (s, 0)                                  (* Stat fails: failIncomingHandshake -> DeletePending *)
+  else if guard && negb (sa_hash a =? 0) then (s, 0)                     (* the fix: same path *)
+  else if sa_hash a =? 0
+       then (s, if sa_bfok a then 2 else 1)   (* active until it ends (connClosedEvent: DeleteActive) / AddPeer error: Close *)
+       else (mkss (k :: ss_pending s) (ss_active s), 1).
+            (* before the fix: MovePendingToActive(peer, torrent hash) fails, the connection is closed, and the entry
+               (peer, foreign hash) is never deleted *)
+
+Fixpoint sched_run (guard : bool) (s : sst) (l : list sattempt) : sst * list Z :=
+  match l with
+  | [] => (s, [])
+  | a :: r => let '(s1, o) := sched_attempt guard s a in
+              let '(s2, os) := sched_run guard s1 r in (s2, o :: os)
+  end.
+
+(* the property on an observed run: a connection that has ended leaves nothing behind, so an attempt is answered
+   according to its own fields only — and every well-formed attempt for a known torrent is served *)
+Definition sched_expected (a : sattempt) : Z :=
+  if negb (sa_known a) || negb (sa_hash a =? 0) then 0 else if sa_bfok a then 2 else 1.
+Definition C14_sched_check (l : list sattempt) (obs : list Z) : bool :=
+  (Z.of_nat (length obs) =? Z.of_nat (length l)) &&
+  forallb (fun '(a, o) => o =? sched_expected a) (combine l obs).
+
 (* ------------------------------------------------------------------ what the driver observes *)
 Record obs := mkobs {
   o_crash : Z;                                   (* 0 alive, 1 panic, 2 out of memory *)
